@@ -126,10 +126,9 @@ def Mag.div (a b : Mag) : Res Mag :=
 /-- Python `a ** x` for a real base and a real exponent `x` -/
 def Mag.pow (a : Mag) (x : Rat) : Res Mag :=
   if isInt x then
-    let k : Int := x.num
     match a with
-    | .exact q => if q = 0 ∧ k < 0 then .error .math else .ok (.exact (q ^ k))
-    | .inexact n => if k = 0 then .ok (.exact 1) else .ok (.inexact (n && k % 2 != 0))
+    | .exact q => if q = 0 ∧ x.num < 0 then .error .math else .ok (.exact (q ^ x.num))
+    | .inexact n => if x.num = 0 then .ok (.exact 1) else .ok (.inexact (n && x.num % 2 != 0))
   else
     match a with
     | .exact q =>
